@@ -145,6 +145,46 @@ def recordedVerdict (stream : Bytes) (recorded : Option Info) : String :=
     else "bad:skew:something is recorded although the first record is not complete"
   | some hello => skewVerdict hello recorded
 
+/-! ### several connections at one listener
+
+What is recorded for a connection is the reading of THAT connection's bytes: it must not depend on
+what other peers sent on other connections — earlier ones, aborted ones, or ones that are open at
+the same time. -/
+
+/-- where connection `i` is in its life while the steps go by -/
+inductive Phase where
+  | fresh | opened | closed
+deriving Repr, DecidableEq
+
+/-- the deliveries connection `i` made between its (first) accept and its close -/
+def deliveries (i : Nat) : Phase → List Step → List Bytes
+  | _, [] => []
+  | .fresh, .accept j _ :: ss => if j = i then deliveries i .opened ss else deliveries i .fresh ss
+  | .opened, .read j seg :: ss =>
+    if j = i then seg :: deliveries i .opened ss else deliveries i .opened ss
+  | .opened, .close j :: ss => if j = i then deliveries i .closed ss else deliveries i .opened ss
+  | ph, _ :: ss => deliveries i ph ss
+
+def accepted (i : Nat) (steps : List Step) : Bool :=
+  steps.any fun s => match s with
+    | .accept j _ => j == i
+    | _ => false
+
+/-- WHAT MUST BE RECORDED for connection `i` after the steps: nothing if it was never accepted or
+its first record is not complete, else the reference reading of the message in its own first record -/
+def connReading (i : Nat) (steps : List Step) : Option Info :=
+  if accepted i steps then (recordHello (deliveries i .fresh steps).flatten).map specRead else none
+
+/-- the entries of connections `0 … recs.length-1`, judged one by one -/
+def connsVerdictFrom (steps : List Step) : Nat → List (Option Info) → String
+  | _, [] => "ok"
+  | i, r :: rs =>
+    if r = connReading i steps then connsVerdictFrom steps (i + 1) rs
+    else s!"bad:skew-across-connections:what is recorded for connection {i} is not the reading of the bytes that connection delivered"
+
+def connsVerdict (steps : List Step) (recs : List (Option Info)) : String :=
+  connsVerdictFrom steps 0 recs
+
 /-! ### writing (RFC layout) -/
 
 def b8 (n : Nat) : UInt8 := UInt8.ofNat (n % 256)
